@@ -566,6 +566,9 @@ pub struct RenderOpts {
     /// is written as is, in upper case or with capitalised words, rotating from this value
     #[serde(default)]
     pub key_case: u8,
+    /// what ends every line of the file (index into LINE_TERMS)
+    #[serde(default)]
+    pub line_term: usize,
     /// separators between the names of a start-state declaration with several names (index into
     /// STATE_SEPS, rotated): any Pattern_White_Space that does not end the line
     #[serde(default)]
@@ -575,6 +578,9 @@ pub struct RenderOpts {
 // (exactly one blank character: the implementation splits at every single white-space character
 // and rejects the empty "name" between two of them)
 pub const STATE_SEPS: &[&str] = &[" ", " ", "\t", "\u{85}", "\u{200e}", "\u{200f}"];
+
+/// Line terminators of the format: LF, CR LF, a lone CR, LINE SEPARATOR, PARAGRAPH SEPARATOR, VT.
+pub const LINE_TERMS: &[&str] = &["\n", "\r\n", "\r", "\u{2028}", "\u{2029}", "\u{b}"];
 
 pub const DIRECTIVES_INCL: &[&str] = &["%s", "%S", "%start", "%state", "%Sx9", "%s"];
 pub const DIRECTIVES_EXCL: &[&str] = &["%x", "%X", "%xclusive", "%xstart", "%Xs", "%x"];
@@ -596,6 +602,7 @@ impl RenderOpts {
             decl_layout: vec![],
             state_sep: 0,
             key_case: 0,
+            line_term: 0,
         }
     }
     pub fn generate(ch: &mut Choices, n: usize, header: bool) -> Self {
@@ -614,6 +621,7 @@ impl RenderOpts {
             decl_layout: (0..6).map(|_| if ch.chance(1, 3) { 1 + ch.pick(15) as u8 } else { 0 }).collect(),
             state_sep: ch.pick(STATE_SEPS.len()),
             key_case: ch.weighted(&[3, 1, 1, 1]) as u8,
+            line_term: ch.weighted(&[8, 2, 2, 1, 1, 1]),
         }
     }
 }
@@ -784,6 +792,17 @@ pub fn render(al: &AL, o: &RenderOpts) -> (String, Layout) {
             s.push_str("  ");
         }
         s.push('\n');
+    }
+    // every line end of the file becomes the chosen terminator (the renderer never writes a raw
+    // newline inside a line); the recorded offsets move accordingly
+    let term = LINE_TERMS[o.line_term % LINE_TERMS.len()];
+    if term != "\n" {
+        let shift = |off: usize| off + s[..off].matches('\n').count() * (term.len() - 1);
+        for r in lay.rule_names.iter_mut().chain(lay.state_names.iter_mut()) {
+            *r = (shift(r.0), shift(r.1));
+        }
+        lay.header_len = shift(lay.header_len);
+        s = s.replace('\n', term);
     }
     (s, lay)
 }
